@@ -51,8 +51,19 @@ def sh(cmd, cwd=None, env=None, timeout=3600):
     e = dict(os.environ)
     if env:
         e.update(env)
-    p = subprocess.run(cmd, shell=True, cwd=cwd, env=e, stdout=subprocess.PIPE, stderr=subprocess.STDOUT, timeout=timeout)
-    return (p.returncode, p.stdout.decode("utf-8", "replace"))
+    # own session: on a timeout the whole process group goes (a hung check must not survive as an orphan)
+    import signal
+    p = subprocess.Popen(cmd, shell=True, cwd=cwd, env=e, stdout=subprocess.PIPE, stderr=subprocess.STDOUT, start_new_session=True)
+    try:
+        (o, _) = p.communicate(timeout=timeout)
+        return (p.returncode, o.decode("utf-8", "replace"))
+    except subprocess.TimeoutExpired:
+        try:
+            os.killpg(p.pid, signal.SIGKILL)
+        except OSError:
+            pass
+        p.wait()
+        return (-9, "TIMEOUT")
 
 
 def candidate_sites(rel):
